@@ -2,7 +2,7 @@
 PROP = "C15"
 LEVEL = "exploration"
 ENGINE = "pyvc+bounded"
-HARNESS_MODULES = ["contracts.c15_leaf_codecs"]
+HARNESS_MODULES = ["contracts.c15_leaf_codecs", "contracts.c15_combinators"]
 
 
 def bounded(tier, seed, rep):
@@ -35,14 +35,45 @@ LEVEL_NOTE = "trusted: the generators; scope as in the rule"
 _bounded0 = bounded
 
 
+PUZZLE_COMBINATORS = [("nurikabe", "NURIKABE_COMBINATOR"), ("nurimisaki", "NURIMISAKI_COMBINATOR"), ("sudoku", "SUDOKU_COMBINATOR"),
+                      ("slitherlink", "SLITHERLINK_COMBINATOR"), ("masyu", "MASYU_COMBINATOR"), ("yajilin", "YAJILIN_COMBINATOR"),
+                      ("heyawake", "HEYAWAKE_COMBINATOR"), ("lits", "LITS_COMBINATOR"), ("norinori", "NORINORI_COMBINATOR")]
+
+
 def bounded(tier, seed, rep):
-    from contracts import c15_leaf_codecs
-    rep.coverage["ground_facts_validated_natively"] = c15_leaf_codecs.facts_validation()
+    import importlib
+    from contracts import c15_leaf_codecs, c15_combinators
+    from bounded import leancheck
+    from bounded.common import load_repo
+    rep.coverage["ground_facts_validated_natively"] = c15_leaf_codecs.facts_validation() + c15_leaf_codecs.leading_class_validation()
+    leancheck.check(rep, "lean/Codecs.lean", ["C15.oneOf_RTg", "C15.oneOf_Lead", "C15.seq_RT", "C15.tupl_RT", "C15.grid_RT",
+                                               "C15.rowsOf_get", "C15.grid_oneOf_RT", "C15.problem_roundtrip"])
+    load_repo()
+    ps = importlib.import_module("cspuz.problem_serializer")
+    named = []
+    for mod, attr_ in PUZZLE_COMBINATORS:
+        try:
+            named.append((mod, getattr(importlib.import_module("cspuz.puzzle." + mod), attr_)))
+        except Exception as e:          # a codec that moved is simply not in the list of covered instances
+            rep.coverage.setdefault("instances_not_found", []).append("%s.%s: %s" % (mod, attr_, type(e).__name__))
+    rep.coverage["puzzle_codecs_carried_by_the_lemmas"] = c15_combinators.instance_coverage(ps, named)
     _bounded0(tier, seed, rep)
 
 
-LEVEL_TEXT = ("exploration overall. Proved without bound (pyvc): HexInt, Spaces, IntSpaces, MultiDigit (7 base/digit configurations) "
-              "round-trip for ALL values, ALL positions in the data and ALL surrounding text (pre + s + rest), _to_base36 on its "
-              "one-digit range; the composite combinators (OneOf/Tupl/Seq/Grid), DecInt, Dict/FixStr, Rooms/ValuedRooms are bounded")
-TECHNIQUE = ("pyvc: leaf codec round-trip contracts over SMT strings (loop invariants with quantifiers, callee contract for "
-             "_to_base36, ground facts about hex()/int() validated natively); bounded: generated terms and type-directed values")
+LEVEL_TEXT = ("exploration overall. Proved without bound: (1) pyvc, leaves: HexInt, Spaces, IntSpaces, MultiDigit (7 base/digit "
+              "configurations), Dict, FixStr round-trip for ALL values, ALL positions in the data and ALL surrounding text "
+              "(pre + s + rest; MultiDigit up to zero padding after the last item), refuse the end of the text and accept only "
+              "first characters of their class; (2) pyvc, step contracts: OneOf / Seq / Tupl / Grid compute exactly the result "
+              "relations First / SeqSer / SeqDes / TuplSer / TuplDes / grid+rowsOf from arbitrary components; (3) Lean 4: those "
+              "relations carry the round trip to every nesting (oneOf_RTg, oneOf_Lead, seq_RT, tupl_RT, grid_RT, grid_oneOf_RT, "
+              "problem_roundtrip). Covered instances are listed in the evidence (coverage.puzzle_codecs_carried_by_the_lemmas). "
+              "Not proved: Rooms / ValuedRooms (flood fill, sorting), DecInt, custom leaves (YajilinClue), the translation "
+              "from the step contracts to the Lean relations; these stay bounded / assumed, hence not 'proof'")
+TECHNIQUE = ("pyvc: leaf codec round-trip and leading-character contracts over SMT strings (loop invariants with quantifiers, "
+             "callee contract for _to_base36, ground facts about hex()/int() validated natively); pyvc: step contracts of the "
+             "composite combinators over arbitrary (ghost) components; Lean 4 + Mathlib: composition lemmas over the result "
+             "relations (lean/Codecs.lean, re-checked on every run); native: disjointness of the leading classes of the puzzle "
+             "codecs' alternatives (all character codes); bounded: generated terms and type-directed values")
+ASSUMPTIONS = ASSUMPTIONS + ["component combinators answer as functions of their arguments (no state between calls); the bounded tier runs shared instances across boards for this",
+                             "hand translation of the pyvc step contracts into the inductive relations of lean/Codecs.lean",
+                             "Lean 4 kernel + Mathlib (axioms propext, Classical.choice, Quot.sound only)"]
